@@ -465,6 +465,97 @@ def rule_no_wrap(ctx):
     ctx.floor("u16 Add/Mul overflow obligations", n, 20)
 
 
+
+def rule_bonus_args(ctx):
+    """Every bonus is computed for (class of the character before the candidate, class of the
+    haystack character at the candidate). The needle's character may stand in for the haystack's
+    only where the candidate search is case sensitive (then the two bytes are equal)."""
+    from props.c11 import for_loops
+    facts = ctx.facts
+    n = 0
+    for b in facts.bodies_of(M):
+        if not (b["path"].startswith("exact::") or b["path"].startswith("score::<impl Matcher>") or b["path"].startswith("fuzzy_optimal::<impl matrix")):
+            continue
+        fn = fn_of(b)
+        loops = for_loops(fn)
+        k = 0
+        for bi, t in fn.calls(lambda t: callee(t).endswith("::bonus_for")):
+            n += 1
+            k += 1
+            key = "%s|bonus-args|%d" % (fn.path, k)
+            cls = fn.expr_of_operand(t["args"][2])
+            prev = fn.expr_of_operand(t["args"][1])
+            if cls[0] == "arg" and prev[0] == "arg":
+                ctx.ok(site(fn, bi), "pass-through wrapper")
+                continue
+            # ---- class of the candidate character
+            exprs = [cls]
+            if cls[0] == "local":
+                exprs = [d for _, _, d in fn.def_exprs(cls[1], at=bi)]
+            verdict = None
+            for e in exprs:
+                cc = [x for x in walk(e) if x[0] == "call" and (str(x[3]).endswith("char_class_and_normalize") or str(x[3]).endswith("Char::char_class") or str(x[1]).endswith("::char_class") or str(x[1]).endswith("char_class_and_normalize"))]
+                if not cc:
+                    verdict = ("bad", "class argument %s is not a character class of anything" % show(e)[:80])
+                    break
+                ch = cc[0][2][0]
+                names = [x[2] for x in walk(ch) if x[0] in ("arg", "local") and x[2]] + [x[2] for x in walk(ch) if x[0] == "field"]
+                from_hay = any("haystack" in nm or nm in ("c_",) for nm in names) or any(x[0] == "call" and "Enumerate" in str(x[1]) for x in walk(ch)) or any(x[0] == "call" and "Zip" in str(x[1]) for x in walk(ch))
+                from_needle = any(nm == "c" or "needle" in nm for nm in names) and not from_hay
+                if from_hay:
+                    continue
+                if from_needle:
+                    # allowed only under a case-sensitive candidate search
+                    inner = [l for l in loops if bi in l[1] and l[2] is not None]
+                    if not inner:
+                        verdict = ("bad", "class taken from the needle character outside a candidate loop")
+                        break
+                    loop = min(inner, key=lambda l: len(l[1]))
+                    it = fn.expr_of_operand(fn.blocks[loop[2][0]]["term"]["args"][0])
+                    cands = [it]
+                    for x in walk(it):
+                        if x[0] == "local":
+                            cands += [d for _, _, d in fn.def_exprs(x[1])]
+                    srcs = set()
+                    for c_ in cands:
+                        for x in walk(c_):
+                            if x[0] == "call":
+                                nm = str(x[1])
+                                if "Memchr2" in nm or "memchr2" in nm:
+                                    srcs.add("insensitive")
+                                elif "Memchr<" in nm or "Memchr::<" in nm or nm.endswith("Memchr::new") or "memmem::find_iter" in nm or "FindIter" in nm:
+                                    srcs.add("sensitive")
+                            if x[0] == "arg" and x[2] not in ("self", "haystack", "needle", "c"):
+                                srcs.add("param:" + str(x[2]))
+                    if srcs == {"sensitive"}:
+                        continue
+                    verdict = ("bad", "the candidate's class is taken from the needle character although the candidates come from %s: under ignore_case the haystack character can be the upper-case variant, whose class (and camelCase bonus) differs" % sorted(srcs))
+                    break
+                verdict = ("bad", "cannot tell which character's class is used: %s" % show(ch)[:80])
+                break
+            if verdict:
+                ctx.violation(key + "|class", site(fn, bi), verdict[1])
+                continue
+            # ---- class of the previous character
+            pex = [prev]
+            if prev[0] == "local":
+                pex = [d for _, _, d in fn.def_exprs(prev[1], at=bi)]
+            okp = True
+            why = ""
+            for e in pex:
+                has_class = any(x[0] == "call" and ("char_class" in str(x[1]) or "char_class" in str(x[3])) for x in walk(e))
+                has_init = any(x[0] == "field" and x[2] == "initial_char_class" for x in walk(e))
+                is_param = e[0] == "arg"
+                if not (has_class or has_init or is_param):
+                    okp = False
+                    why = show(e)[:80]
+            if okp:
+                ctx.ok(site(fn, bi), "bonus_for(class of the preceding haystack character | initial class, class of the candidate haystack character)")
+            else:
+                ctx.violation(key + "|prev", site(fn, bi), "previous-class argument is %s" % why)
+    ctx.floor("bonus_for call sites in the scorers", n, 9)
+
+
 def rule_twins(ctx):
     from props.c02 import rule_twins as r
     r(ctx)
@@ -519,9 +610,19 @@ def rule_same_constants(ctx):
         for bi, t in fn.calls(lambda t: callee(t).endswith("_sub") and "num::" in callee(t)):
             if len(t["args"]) < 2 or not mentions_penalty(fn, fn.expr_of_operand(t["args"][1])):
                 continue
+            if fn.expr_of_operand(t["args"][0])[0] == "const":
+                continue  # e.g. MAX_PREFIX_BONUS.saturating_sub(..): not the running score
             if "saturating_sub" in callee(t):
+                # one gap step at a time: the subtracted value is one of the two penalty constants
+                pb = Bounds(ctx, fn, 0).bound(fn.expr_of_operand(t["args"][1]), bi)
+                lim = max(facts.const(M, c)["value"] for c in PEN)
+                if pb is None or pb > lim:
+                    bad += 1
+                    ctx.violation("%s|gap-floor|accumulated" % name, site(fn, bi),
+                                  "the value subtracted from the running score is not a single gap step (≤ %d) but %s: a penalty accumulated over several skipped characters is floored only once, after the next match was added, so a long early gap eats into later matches (the scheme floors the running score at zero at every skipped character)" % (lim, show(fn.expr_of_operand(t["args"][1]))[:80]))
+                    continue
                 good += 1
-                ctx.ok(site(fn, bi), "gap penalty subtracted with saturating_sub (score floored at zero)")
+                ctx.ok(site(fn, bi), "gap penalty (one step, ≤ %d) subtracted with saturating_sub: score floored at zero at every skipped character" % lim)
             else:
                 bad += 1
                 ctx.violation("%s|gap-floor|%s" % (name, callee(t).rsplit("::", 1)[1]), site(fn, bi), "gap penalty subtracted with %s: the running score is not floored at zero" % callee(t).rsplit("::", 1)[1])
@@ -541,5 +642,6 @@ def rules(ctx):
     ctx.run_rule("C03.prev-class", rule_prev_class)
     ctx.run_rule("C03.no-wrap", rule_no_wrap)
     ctx.run_rule("C03.same-constants", rule_same_constants)
+    ctx.run_rule("C03.bonus-args", rule_bonus_args)
     ctx.run_rule("C03.indices-guard", rule_indices_guard)
     ctx.run_rule("C03.twins", rule_twins)
